@@ -103,6 +103,12 @@ def mk_np(rec):
         def arange(self, n):
             return Affine(n)
 
+        def indices(self, dimensions, dtype=None, **kw):
+            # the same grid as mgrid[0:n0, 0:n1]; a narrow integer dtype silently wraps indices it cannot hold
+            rec.mgrid = tuple(slice(0, n, None) for n in dimensions)
+            rec.grid_dtype = dtype
+            return ('gx', rec.mgrid), ('gy', rec.mgrid)
+
         @property
         def mgrid(self):
             class G:
@@ -198,6 +204,14 @@ def h_roundtrip(ft, f, cdkind):
             return dict()
         mg = rec.mgrid
         c.oblige(etag + ':restores the original dimensions (rows, cols)', z3.And(L(mg[0].start) == 0, L(mg[0].stop) == cx.e, L(mg[1].start) == 0, L(mg[1].stop) == cy.e))
+        gdt = getattr(rec, 'grid_dtype', None)
+        if gdt is not None:
+            try:
+                top = real_np.iinfo(gdt).max if real_np.issubdtype(gdt, real_np.integer) else None
+            except Exception:
+                top = None
+            if top is not None:
+                c.oblige(etag + ':the pixel-index grid can hold every pixel index (no integer wrap-around)', z3.And(cx.e - 1 <= top, cy.e - 1 <= top), info='dtype %s holds at most %d' % (real_np.dtype(gdt).name, top))
         (rows, cols), vals = calls[0]
         okr = isinstance(rows, Affine) and isinstance(cols, Affine) and vals is cdata
         c.oblige(etag + ':interpolates the stored samples on an arange-based grid', z3.BoolVal(bool(okr)))
@@ -282,6 +296,9 @@ def run(rep):
                 if ob['result'] == 'sat':
                     m = ob['model']
                     shape = (max(2, min(int(m.get('cx', 9)), 60)), max(2, min(int(m.get('cy', 7)), 60)))
+                    if 'wrap-around' in ob['name']:
+                        big = max(int(m.get('cx', 9)), int(m.get('cy', 7))) + 4 * f + 3      # far enough past the limit for a grid node to be affected
+                        shape = (3, min(big, 300000)) if int(m.get('cy', 7)) >= int(m.get('cx', 9)) else (min(big, 300000), 3)
                     bad, cls, detail = oracle(shape, f, cd)
                     if not bad:
                         for shape in ((9, 7), (2, 2), (17, 32), (f + 1, 2 * f + 3)):
@@ -302,11 +319,26 @@ def run(rep):
         rep.validated_runs(1)
         if bad:
             rep.finding('C15/K-bookkeeping/%s' % cls, dict(shape=list(shape), factor=f, cd=cdk), detail, kernel='K-bookkeeping')
-    rep.not_decided += ['a compressed background/noise file is accepted by Aegean wherever an uncompressed one is (load_globals plumbing)', 'interpolated values (scipy)']
+    # a compressed map is read like an uncompressed one and yields the image's shape (the loader Aegean uses; C20 decides it)
+    from checks import C20
+    for rows_, n_ in ((47, 3), (12, 1), (9, 4)):
+        try:
+            bad, cls, detail = C20.oracle_bands(rows_, n_, 'compressed', cols=38)
+        except Exception as e:
+            bad, cls, detail = False, None, repr(e)
+        rep.validated_runs(1)
+        if bad:
+            rep.finding('C15/K-accept/%s' % cls, dict(accept=True, rows=rows_, n=n_), detail, kernel='K-bookkeeping')
+            break
+    rep.not_decided += ['a compressed background/noise file is accepted by Aegean wherever an uncompressed one is: decided for the loader in C20 K-exec; here only replayed on real files', 'interpolated values (scipy)']
 
 
 def replay(w):
     wit = w['witness']
+    if wit.get('accept'):
+        from checks import C20
+        bad, cls, detail = C20.oracle_bands(int(wit['rows']), int(wit['n']), 'compressed', cols=38)
+        return bad, '%s: %s' % (cls, detail)
     bad, cls, detail = oracle(tuple(wit['shape']), int(wit['factor']), wit.get('cd', 'CDELT'))
     return bad, '%s: %s' % (cls, detail)
 
